@@ -229,6 +229,8 @@ def jacobian(pars, x, y):
         if pars[prefix + 'theta'].vary:
             dmdtheta = model * (sy ** 2 - sx ** 2) * \
                 (xsin - ycos) * (xcos + ysin) / sx ** 2 / sy ** 2
+            # theta is in degrees
+            dmdtheta *= np.pi / 180
             matrix.append(dmdtheta)
 
     return np.array(matrix)
